@@ -26,9 +26,13 @@ func DecodeEscape(in *bytes.Buffer, byteMode bool) (out *bytes.Buffer, err error
 	decodeHex := func(what byte, i, size int) error {
 		i++
 		if i+size <= len(runes) {
-			cout, err := strconv.ParseInt(string(runes[i:i+size]), 16, 32)
+			// ParseUint: the digits must be hex digits only (ParseInt would accept a sign)
+			cout, err := strconv.ParseUint(string(runes[i:i+size]), 16, 32)
 			if err != nil {
 				return py.ExceptionNewf(py.ValueError, "invalid \\%c escape at position %d", what, i-2)
+			}
+			if !byteMode && cout > 0x10FFFF {
+				return py.ExceptionNewf(py.ValueError, "illegal Unicode character at position %d", i-2)
 			}
 			if byteMode {
 				out.WriteByte(byte(cout))
